@@ -118,7 +118,8 @@ end
 section
 variable {f : D PyVal}
 
-theorem decodeAll_errIn {Q : Exn → Prop} (hf : ErrIn Q f) (hh : Q .hang) : ∀ fuel, ErrIn Q (decodeAll f fuel)
+theorem decodeAll_errIn {Q : Exn → Prop} (hf : ErrIn Q f) (hd : Q .data) (hh : Q .hang) :
+    ∀ fuel, ErrIn Q (decodeAll f fuel)
   | 0 => by intro bs e h; rw [decodeAll] at h; cases h; exact hh
   | fuel + 1 => by
       intro bs e h
@@ -127,9 +128,11 @@ theorem decodeAll_errIn {Q : Exn → Prop} (hf : ErrIn Q f) (hh : Q .hang) : ∀
       · cases h
       · rename_i e' _ h'; cases h; exact hf _ _ h'
       · rename_i v r h'
-        rcases (bind_err_iff ..).1 h with h | ⟨a, h, h2⟩
-        · exact decodeAll_errIn hf hh fuel _ _ h
-        · cases h2
+        split at h
+        · cases h; exact hd
+        · rcases (bind_err_iff ..).1 h with h | ⟨a, h, h2⟩
+          · exact decodeAll_errIn hf hd hh fuel _ _ h
+          · cases h2
 
 theorem decodeAll_suf (hf : Suf f) : ∀ fuel, Suf (decodeAll f fuel)
   | 0 => by intro bs v r h; rw [decodeAll] at h; cases h
@@ -140,26 +143,42 @@ theorem decodeAll_suf (hf : Suf f) : ∀ fuel, Suf (decodeAll f fuel)
       · cases h; exact List.suffix_refl _
       · cases h
       · rename_i v r1 h'
-        obtain ⟨a, h1, h2⟩ := (bind_ok_iff ..).1 h
-        obtain ⟨vs', r'⟩ := a
-        cases h2
-        exact (decodeAll_suf hf fuel _ _ _ h1).trans (hf _ _ _ h')
+        split at h
+        · cases h
+        · obtain ⟨a, h1, h2⟩ := (bind_ok_iff ..).1 h
+          obtain ⟨vs', r'⟩ := a
+          cases h2
+          exact (decodeAll_suf hf fuel _ _ _ h1).trans (hf _ _ _ h')
 
-/-- enough fuel + consuming elements: the loop ends by itself -/
-theorem decodeAll_noHang (hp : Prog f) (hf : ErrIn (· ≠ .hang) f) :
-    ∀ fuel bs, bs.length < fuel → decodeAll f fuel bs ≠ .error .hang
-  | 0, bs, h => by omega
-  | fuel + 1, bs, hl => by
-      intro h
+/-- enough fuel: whatever the element decoder, the errors of the loop are those of the element decoder
+    or DataError — the fuel marker is never produced, because a round that continues has shortened the
+    buffer (an element that consumed nothing ends the loop with DataError) -/
+theorem decodeAll_errIn_fuel {Q : Exn → Prop} (hle : ∀ bs v r, f bs = .ok (v, r) → r.length ≤ bs.length)
+    (hf : ErrIn Q f) (hd : Q .data) :
+    ∀ fuel bs e, bs.length < fuel → decodeAll f fuel bs = .error e → Q e
+  | 0, bs, e, h, _ => by omega
+  | fuel + 1, bs, e, hl, h => by
       rw [decodeAll] at h
       split at h
       · cases h
-      · rename_i e' _ h'; cases h; exact hf _ _ h' rfl
+      · rename_i e' _ h'; cases h; exact hf _ _ h'
       · rename_i v r1 h'
-        rcases (bind_err_iff ..).1 h with h | ⟨a, h, h2⟩
-        · have := hp _ _ _ h'
-          exact decodeAll_noHang hp hf fuel r1 (by omega) h
-        · cases h2
+        split at h
+        · cases h; exact hd
+        · rename_i hne
+          rcases (bind_err_iff ..).1 h with h | ⟨a, h, h2⟩
+          · have := hle _ _ _ h'
+            exact decodeAll_errIn_fuel hle hf hd fuel r1 e (by omega) h
+          · cases h2
+
+/-- enough fuel + an element decoder that never returns more than it was given: the loop ends by itself -/
+theorem decodeAll_noHang (hle : ∀ bs v r, f bs = .ok (v, r) → r.length ≤ bs.length)
+    (hf : ErrIn (· ≠ .hang) f) :
+    ∀ fuel bs, bs.length < fuel → decodeAll f fuel bs ≠ .error .hang :=
+  fun fuel bs hl h => decodeAll_errIn_fuel (Q := (· ≠ .hang)) hle hf (by simp) fuel bs _ hl h rfl
+
+theorem Suf.le (hs : Suf f) : ∀ bs v r, f bs = .ok (v, r) → r.length ≤ bs.length :=
+  fun bs v r h => (hs bs v r h).length_le
 
 end
 
@@ -236,25 +255,12 @@ theorem prefK_stab (hf : Stab f) (n : Nat) : Stab (prefK f pst n) := by
     simp only [this, if_false]
     exact ((decodeN_stab hf n).bind fun _ => Stab.ret) _ _ _ h ext
 
-theorem prefK_noHang (hs : Suf f) (hp : Prog f) (hf : ErrIn (· ≠ .hang) f) (n : Nat) :
-    ErrIn (· ≠ .hang) (prefK f pst n) := by
-  intro r0 e h
-  unfold prefK at h
-  split at h
-  · split at h
-    · rename_i x h'
-      obtain ⟨vs, r⟩ := x
-      have := decodeN_count hs hp _ _ _ _ h'
-      omega
-    · rename_i h'; cases h; exact decodeN_errIn hf _ _ _ h'
-  · exact ((decodeN_errIn hf n).bind fun _ => ErrIn.ret) _ _ h
-
 theorem arr_errIn {Q : Exn → Prop} (hf : ErrIn Q f) (h2 : ∀ e, C2 e → Q e) (hh : Q .hang) (len : ArrLen) :
     ErrIn Q (arrDec f pst len) := by
   cases len with
   | all =>
     intro bs e h
-    exact ((decodeAll_errIn hf hh (bs.length + 1)).bind fun _ => ErrIn.ret) bs e h
+    exact ((decodeAll_errIn hf (h2 _ (Or.inl rfl)) hh (bs.length + 1)).bind fun _ => ErrIn.ret) bs e h
   | fixed n => exact (decodeN_errIn hf n).bind fun _ => ErrIn.ret
   | pref k => exact ((intNat_good k).err.mono h2).bind (prefK_errIn hf hh)
 
@@ -272,24 +278,52 @@ theorem arr_prog_fixed (hs : Suf f) (hp : Prog f) (n : Nat) (hn : 0 < n) : Prog 
 theorem arr_prog_pref (hs : Suf f) (k : IntK) : Prog (arrDec f pst (.pref k)) :=
   (intNat_prog k).bind_left (prefK_suf hs)
 
-theorem arr_noHang_fixed (hf : ErrIn (· ≠ .hang) f) (n : Nat) : ErrIn (· ≠ .hang) (arrDec f pst (.fixed n)) :=
-  (decodeN_errIn hf n).bind fun _ => ErrIn.ret
-
 theorem c2_ne_hang (e : Exn) (h : C2 e) : e ≠ .hang := by
   rcases h with rfl | rfl <;> simp
 
-theorem arr_noHang_loop (hs : Suf f) (hp : Prog f) (hf : ErrIn (· ≠ .hang) f) (len : ArrLen) :
-    ErrIn (· ≠ .hang) (arrDec f pst len) := by
+/-- where the fuel marker of a counted loop comes from: the element decoder, or a count that exceeds the
+    remaining bytes by more than 65536 while `remaining + 1` elements decode -/
+theorem prefK_err_cases {Q : Exn → Prop} (hf : ErrIn Q f) (n : Nat) (r0 : Bytes) (e : Exn)
+    (h : prefK f pst n r0 = .error e) :
+    Q e ∨ (e = .hang ∧ r0.length + 65536 < n ∧ ∃ x, decodeN f (r0.length + 1) r0 = .ok x) := by
+  unfold prefK at h
+  split at h
+  · rename_i hn
+    split at h
+    · rename_i x h'; cases h; exact Or.inr ⟨rfl, hn, x, h'⟩
+    · rename_i h'; cases h; exact Or.inl (decodeN_errIn hf _ _ _ h')
+  · exact Or.inl (((decodeN_errIn hf n).bind fun _ => ErrIn.ret) _ _ h)
+
+/-- the count read from `bs` exceeds what is left by more than 65536 and `left + 1` elements decode -/
+def Huge (k : IntK) (f : D PyVal) (bs : Bytes) : Prop :=
+  ∃ n r0, decodeIntNat k bs = .ok (n, r0) ∧ r0.length + 65536 < n ∧ ∃ x, decodeN f (r0.length + 1) r0 = .ok x
+
+theorem huge_hang (k : IntK) (bs : Bytes) (h : Huge k f bs) : arrDec f pst (.pref k) bs = .error .hang := by
+  obtain ⟨n, r0, h1, h2, x, h3⟩ := h
+  refine (bindD_err ..).2 (Or.inr ⟨n, r0, h1, ?_⟩)
+  unfold prefK
+  have : n > r0.length + 65536 := h2
+  simp only [this, if_true, h3]
+
+/-- errors of an array decoder: those of the element decoder, DataError/BufferEmptyError, and the fuel
+    marker for a huge count — the unbounded loop contributes none of its own -/
+theorem arr_err_cases {Q : Exn → Prop} (hs : Suf f) (hf : ErrIn Q f) (h2 : ∀ e, C2 e → Q e) (len : ArrLen)
+    (bs : Bytes) (e : Exn) (h : arrDec f pst len bs = .error e) :
+    Q e ∨ (e = .hang ∧ ∃ k, len = .pref k ∧ Huge k f bs) := by
   cases len with
   | all =>
-    intro bs e h
     have h : bindD (decodeAll f (bs.length + 1)) (fun vs => ret (pst vs)) bs = .error e := h
     rcases (bindD_err ..).1 h with h | ⟨a, r1, _, h⟩
-    · intro he; subst he
-      exact decodeAll_noHang hp hf _ bs (by omega) h
+    · exact Or.inl (decodeAll_errIn_fuel hs.le hf (h2 _ (Or.inl rfl)) _ bs e (by omega) h)
     · simp [ER.ret] at h
-  | fixed n => exact arr_noHang_fixed hf n
-  | pref k => exact ((intNat_good k).err.mono c2_ne_hang).bind (prefK_noHang hs hp hf)
+  | fixed n => exact Or.inl (((decodeN_errIn hf n).bind fun _ => ErrIn.ret) _ _ h)
+  | pref k =>
+    have h : bindD (decodeIntNat k) (prefK f pst) bs = .error e := h
+    rcases (bindD_err ..).1 h with h | ⟨n, r0, h1, h⟩
+    · exact Or.inl (h2 _ ((intNat_good k).err _ _ h))
+    · rcases prefK_err_cases hf n r0 e h with h | ⟨he, hn, x, hx⟩
+      · exact Or.inl h
+      · exact Or.inr ⟨he, k, rfl, n, r0, h1, hn, x, hx⟩
 
 theorem arr_errIn_zero {Q : Exn → Prop} : ErrIn Q (arrDec f pst (.fixed 0)) := by
   show ErrIn Q (bindD (decodeN f 0) fun vs => ret (pst vs))
